@@ -746,6 +746,15 @@ impl<T: GseDecapMemory, C: CrcCalculator, MHEM: MandatoryHeaderExtensionManager>
             Err(err) => return Err((DecapError::ErrorMemory(err), pkt_len)),
         };
 
+        // the length received so far has to fit the 16 bits of the total length
+        if decap_context.pdu_len as usize + calculed_pdu_len > u16::MAX as usize {
+            // if the memory refuses the storage, it is handed to the caller inside the error
+            if let Err(err) = self.memory.provision_storage(pdu) {
+                return Err((DecapError::ErrorMemory(err), pkt_len));
+            }
+            return Err((DecapError::ErrorTotalLength, pkt_len));
+        }
+
         let pdu_buffer = &mut pdu[decap_context.pdu_len as usize..];
 
         let pdu_buffer_len = pdu_buffer.len();
@@ -834,8 +843,8 @@ impl<T: GseDecapMemory, C: CrcCalculator, MHEM: MandatoryHeaderExtensionManager>
             )
         };
 
-        let total_len_received = (pdu_len + PROTOCOL_LEN + first_label_len) as u16;
-        if decap_context.total_len != total_len_received {
+        let total_len_received = pdu_len + PROTOCOL_LEN + first_label_len;
+        if decap_context.total_len as usize != total_len_received {
             // if the memory refuses the storage, it is handed to the caller inside the error
             if let Err(err) = self.memory.provision_storage(pdu) {
                 return Err((DecapError::ErrorMemory(err), pkt_len));
